@@ -9,7 +9,7 @@
    JsrPackageVersionInfo::module_info (pkg_module_info).  find_deno_types (a regex)
    is a parameter [fdt]: the theorems hold for every such function; the check
    supplies the real function's answers as a table. *)
-From DG Require Import Base.Util Base.Sexp Model.Codec Proofs.CodecProofs.
+From DG Require Import Base.Util Base.Sexp Model.Codec Proofs.CodecProofs Proofs.CodecUnordered.
 
 (* Round trip.  WfInfo: attribute maps have distinct keys (they are HashMaps in Rust);
    under it the encoding is a JSON value with distinct object keys, i.e. one that a
@@ -26,11 +26,27 @@ Theorem C13_roundtrip_exact : forall mi, dec_module_info (enc_module_info mi) = 
 Proof. exact dec_module_info_enc. Qed.
 Print Assumptions C13_roundtrip_exact.
 
+(* The real serializer emits struct fields in its own order and attribute maps in HashMap
+   iteration order, and serde_json::Value compares objects as maps.  So the statement that
+   matters for the real encoding is the one up to key order: EVERY JSON value with distinct
+   keys that equals the model's encoding as an unordered value (jeqv) decodes to the info,
+   up to attribute-map order. *)
+Theorem C13_roundtrip_unordered : forall mi j,
+  WfInfo mi -> json_wfb j = true -> jeqv (enc_module_info mi) j ->
+  exists mi', dec_module_info j = Some mi' /\ info_eq mi mi' /\ WfInfo mi'.
+Proof. exact roundtrip_unordered. Qed.
+Print Assumptions C13_roundtrip_unordered.
+
 (* Corollary: no two analysis results share an encoding (nothing is lost, in particular
    none of the skip_serializing_if / default pairs conflates two values). *)
 Theorem C13_enc_injective : forall a b, enc_module_info a = enc_module_info b -> a = b.
 Proof. exact enc_module_info_injective. Qed.
 Print Assumptions C13_enc_injective.
+
+Theorem C13_enc_injective_unordered : forall a b,
+  WfInfo a -> WfInfo b -> jeqv (enc_module_info a) (enc_module_info b) -> info_eq a b.
+Proof. exact enc_injective_unordered. Qed.
+Print Assumptions C13_enc_injective_unordered.
 
 (* moduleGraph1 upgrade of one dependency object [JObj dm] whose leadingComments all
    deserialise and whose last comment matches find_deno_types with text t and byte
